@@ -108,7 +108,10 @@ func (v *vLogImpl) state() string {
 	segs := l.Segments()
 	ss := make([]string, len(segs))
 	for i, s := range segs {
-		ss[i] = fmt.Sprintf("%d:%d:%d:%d:%d", s.BaseOffset, s.FirstOffset(), s.LastOffset(), s.MessageCount(), s.Position())
+		s.RLock()
+		lastTs := s.lastWriteTime
+		s.RUnlock()
+		ss[i] = fmt.Sprintf("%d:%d:%d:%d:%d:%d", s.BaseOffset, s.FirstOffset(), s.LastOffset(), s.MessageCount(), s.Position(), lastTs)
 	}
 	l.leaderEpochCache.mu.RLock()
 	es := make([]string, len(l.leaderEpochCache.epochOffsets))
